@@ -21,7 +21,7 @@ ASSUMPTIONS = [
     "float comparisons |err| <= 1e-9 x size of contributing terms; exact (sympy) inputs compared with ==",
     "known finding F4 is classified, not silenced: inverse identities are asserted unconditionally, and a case outside F4's predicate or not matching the documented recurrence is reported as a violation",
 ]
-BUDGET = {"quick": dict(cases=500, seconds=75), "thorough": dict(cases=12000, seconds=540)}
+BUDGET = {"quick": dict(cases=500, seconds=300), "thorough": dict(cases=12000, seconds=540)}
 CASE_TIMEOUT = 150
 MONITORS = {"poison": True}
 MONITOR_VERDICTS = ("fp", "nonfinite", "write")
